@@ -235,14 +235,49 @@ def run(ck):
             if "sync::atomic::Atomic::<usize>::" in p or "AtomicUsize::" in p:
                 methods.setdefault(p.split("::")[-1], []).append((fn, t))
     ck.count("call sites on the shared AtomicUsize", sum(len(v) for v in methods.values()))
+    # which atomic a call works on: the variable (or captured variable) it names.  The shared index is the one that is fetch_min'ed.
+    def atom_name(fn, t):
+        e = df.operand_expr(fn, t["args"][0]) if t["args"] else None
+        # a captured variable: field k of the closure environment has a debug name
+        for x in df.walk(e):
+            if isinstance(x, tuple) and x and x[0] == "field" and isinstance(x[2], int) and isinstance(x[1], tuple) and x[1][:2] == ("param", 1) and fn.kind == "Closure":
+                for d_ in fn.dbg:
+                    ps = d_.get("pl", {}).get("p", [])
+                    if d_.get("pl", {}).get("l") == 1 and any(isinstance(p_, dict) and p_.get("f") == x[2] and p_.get("closure") for p_ in ps):
+                        return d_["name"]
+        # the variable the atomic was created into (`let x = AtomicUsize::new(..)`, then `x.load(..)`)
+        for x in df.walk(e):
+            if df.is_call(x, "Atomic::<usize>::new") or df.is_call(x, "AtomicUsize::new"):
+                for b2, t2 in fn.calls():
+                    if (callee_of(t2).get("rpath") or "").endswith("::new") and "Atomic" in (callee_of(t2).get("rpath") or "") and "p" not in t2["dest"] and \
+                            df.call_expr(fn, t2) == x and fn.local_name(t2["dest"]["l"]):
+                        return fn.local_name(t2["dest"]["l"])
+        names = [x[2] for x in df.walk(e) if isinstance(x, tuple) and x and ((x[0] in ("local", "param") and len(x) > 2 and x[2]) or
+                                                                             (x[0] == "field" and isinstance(x[2], str)))]
+        return names[-1] if names else None
+    shared_names = {atom_name(fn, t) for fn, t in methods.get("fetch_min", [])} | {atom_name(fn, t) for fn, t in methods.get("load", [])}
+    from .. import taint
     for m, sites in sorted(methods.items()):
         for fn, t in sites:
-            ck.require(m in ("new", "load", "fetch_min"), "C06-R1", "AtomicUsize::%s in %s" % (m, fn.id),
+            good = m in ("new", "load", "fetch_min")
+            detail = "commutative / read-only"
+            if not good:
+                nm = atom_name(fn, t)
+                # another atomic (a counter for a progress line ...): fine as long as what is read from it is only displayed
+                if nm is not None and nm not in shared_names and "p" not in t["dest"] and not taint.display_only(prog, [(fn, t["dest"]["l"])]):
+                    good = True
+                    detail = "a separate counter (`%s`) whose value is only printed" % nm
+            ck.require(good, "C06-R1", "AtomicUsize::%s in %s" % (m, fn.id),
                        "the cross-thread index is updated with %s: the final value would depend on the schedule" % m, fn.where(t),
-                       ok_detail="commutative / read-only")
+                       ok_detail=detail)
     ck.floor("C06-R1", "fetch_min sites", len(methods.get("fetch_min", [])), 1)
     ck.floor("C06-R1", "load sites", len(methods.get("load", [])), 2)
+    other_counters = {atom_name(fn, t) for m, sites in methods.items() if m not in ("new", "load", "fetch_min") for fn, t in sites} - shared_names
     for fn, t in methods.get("new", []):
+        dn = fn.local_name(t["dest"]["l"]) if "p" not in t["dest"] else None
+        if dn is not None and dn in other_counters and dn not in shared_names:
+            ck.ok("C06-R1", "initial value of the counter `%s`" % dn, "not the shared index (its value is only printed)", fn.where(t))
+            continue
         e = df.operand_expr(fn, t["args"][0])
         good = df.is_call(e, "::len") and df.mentions(e, lambda x: isinstance(x, tuple) and x[0] == "field" and x[2] == "series_patches")
         ck.require(good, "C06-R1", "initial value of the shared index", "the earliest-broken index starts at %s, expected series_patches.len()" % df.show(e, 100),
